@@ -23,10 +23,10 @@ def summarise(out):
     return res
 
 
-def confirm(sid, wt):
+def confirm(sid, wt, patch=None, demo=None):
     mdir = os.path.join(wt, "MUTATION")
-    patch = os.path.join(mdir, "patch.diff")
-    demo = os.path.join(mdir, "demo.rs")
+    patch = patch or os.path.join(mdir, "patch.diff")
+    demo = demo or os.path.join(mdir, "demo.rs")
     assert os.path.exists(patch) and os.path.exists(demo), "missing artefacts"
     log = {}
     sh("git checkout -- src Cargo.toml", wt)
@@ -189,7 +189,9 @@ if __name__ == "__main__":
     if cmd == "confirm":
         sid = sys.argv[2]
         wt = sys.argv[sys.argv.index("--wt") + 1] if "--wt" in sys.argv else f"/tmp/wt/{sid}"
-        sys.exit(0 if confirm(sid, wt) else 1)
+        pa = sys.argv[sys.argv.index("--patch") + 1] if "--patch" in sys.argv else None
+        de = sys.argv[sys.argv.index("--demo") + 1] if "--demo" in sys.argv else None
+        sys.exit(0 if confirm(sid, wt, pa, de) else 1)
     elif cmd == "check":
         check(sys.argv[2], sys.argv[3:] or ALL)
     elif cmd == "recheck":
